@@ -51,14 +51,15 @@ theorem initLoop_spec (hC : C.candidates.Nodup) (hn : 2 ≤ C.candidates.length)
     | none => BadLeaf asn C cvrs winner
     | some st' =>
       StoreOK asn C cvrs winner st'.store ∧ FInv asn C cvrs winner st' ∧ st'.lb = st.lb ∧
-      (∀ π, SC st π → SC st' π) ∧ (∀ t ∈ ts, ∀ π, t <:+ π → SC st' π) := by
+      (∀ π, SC st π → SC st' π) ∧ (∀ t ∈ ts, ∀ π, t <:+ π → SC st' π) ∧
+      Phi C st' ≤ Phi C st + ts.length * W C.candidates.length (C.candidates.length - 2) := by
   intro ts
   induction ts with
   | nil =>
     intro st r h _ hok hF
     simp only [initLoop] at h
     subst h
-    exact ⟨hok, hF, rfl, fun _ h => h, by simp⟩
+    exact ⟨hok, hF, rfl, fun _ h => h, by simp, by simp⟩
   | cons t ts ih =>
     intro st r h hts hok hF
     rw [initLoop] at h
@@ -156,8 +157,29 @@ theorem initLoop_spec (hC : C.candidates.Nodup) (hn : 2 ≤ C.candidates.length)
       cases r with
       | none => exact hrec
       | some st' =>
-      obtain ⟨i1, i2, i3, i4, i5⟩ := hrec
-      refine ⟨i1, i2, i3, ?_, ?_⟩
+      obtain ⟨i1, i2, i3, i4, i5, i6⟩ := hrec
+      refine ⟨i1, i2, i3, ?_, ?_, ?_⟩
+      rotate_left 2
+      · have h1 : Phi C (St.mk (st.store.push newn) st.fr st.lb) ≤ Phi C st := by
+          refine Phi_le_of C (st := st) (st' := St.mk (st.store.push newn) st.fr st.lb) rfl ?_
+          intro k hk
+          show wt _ (Store.get (st.store.push newn) k) st.lb ≤ _
+          rw [hold k (hF.inRange k hk)]
+          exact Nat.le_refl _
+        have h3 := Phi_insert C (St.mk (st.store.push newn) st.fr st.lb) st.store.size
+        have h4 : wt C.candidates.length (Store.get (st.store.push newn) st.store.size) st.lb ≤
+            W C.candidates.length (C.candidates.length - 2) := by
+          have := wt_le_W C.candidates.length (Store.get (st.store.push newn) st.store.size) st.lb
+            (by rw [hnew, g1]; exact hn)
+          rw [hnew, g1] at this
+          rw [hnew]; exact this
+        have i6' : Phi C st' ≤ Phi C (St.mk (st.store.push newn)
+            (insertNode (st.store.push newn) st.fr st.store.size) st.lb) +
+            ts.length * W C.candidates.length (C.candidates.length - 2) := i6
+        simp only at h1 h3 h4
+        rw [h3] at i6'
+        simp only [List.length_cons, Nat.succ_mul]
+        omega
       · intro π hsc
         apply i4
         exact hsc.mono (fun x hx => ⟨(mem_insertNode _ _ _ _).2 (Or.inr hx), by
@@ -191,10 +213,14 @@ theorem alt_initTail (hC : C.candidates.Nodup) (hn : 2 ≤ C.candidates.length) 
   subst hdc
   exact (List.nodup_append.1 hnd).2.2 d (by simp) d (by simp) rfl
 
+/-- a number of iterations of the main loop that always suffices (the initial value of the measure) -/
+def raireFuel : Nat :=
+  (initTails C winner).length * W C.candidates.length (C.candidates.length - 2) + 1
+
 theorem init_inv (hC : C.candidates.Nodup) (hn : 2 ≤ C.candidates.length) :
     match initLoop asn C (cvrs.filterMap id) (nebTable asn C cvrs) (initTails C winner) ⟨#[], [], none⟩ with
     | none => BadLeaf asn C cvrs winner
-    | some st0 => Inv asn C cvrs winner st0 ∧ st0.lb = none := by
+    | some st0 => Inv asn C cvrs winner st0 ∧ st0.lb = none ∧ Phi C st0 < raireFuel C winner := by
   have hok0 : StoreOK asn C cvrs winner (#[] : Store α D) := fun id hid => by simp at hid
   have hF0 : FInv asn C cvrs winner (⟨#[], [], none⟩ : St α D) :=
     ⟨by simp, by simp, List.Pairwise.nil, (by intro h; cases h), (by intro x hx; cases hx), by simp,
@@ -205,11 +231,15 @@ theorem init_inv (hC : C.candidates.Nodup) (hn : 2 ≤ C.candidates.length) :
   | none => rw [hi] at this; exact this
   | some st0 =>
     rw [hi] at this
-    obtain ⟨i1, i2, i3, _, i5⟩ := this
-    refine ⟨⟨i1, i2, ?_⟩, i3⟩
-    intro π hπ
-    obtain ⟨t, ht, hsuf⟩ := alt_initTail C winner hC hn hπ
-    exact i5 t ((mem_initTails C winner t).2 ht) π hsuf
+    obtain ⟨i1, i2, i3, _, i5, i6⟩ := this
+    refine ⟨⟨i1, i2, ?_⟩, i3, ?_⟩
+    · intro π hπ
+      obtain ⟨t, ht, hsuf⟩ := alt_initTail C winner hC hn hπ
+      exact i5 t ((mem_initTails C winner t).2 ht) π hsuf
+    · have : Phi C (⟨#[], [], none⟩ : St α D) = 0 := rfl
+      rw [this] at i6
+      unfold raireFuel
+      omega
 
 /-! ### at exit every frontier node carries an assertion -/
 
@@ -415,9 +445,9 @@ theorem compute_spec (hC : C.candidates.Nodup) (hn : 2 ≤ C.candidates.length) 
   · rw [hi] at hinit
     exact ⟨fun _ => hinit, fun hne => absurd h1 hne⟩
   · rw [hi] at hinit
-    exact ⟨fun _ => mainLoop_spec asn C cvrs winner hC hn fuel st0 _ hm hinit.1, fun hne => absurd h1 hne⟩
+    exact ⟨fun _ => (mainLoop_spec asn C cvrs winner hC hn fuel st0 _ hm hinit.1).1, fun hne => absurd h1 hne⟩
   · rw [hi] at hinit
-    have hE : ExitState asn C cvrs winner st := mainLoop_spec asn C cvrs winner hC hn fuel st0 _ hm hinit.1
+    have hE : ExitState asn C cvrs winner st := (mainLoop_spec asn C cvrs winner hC hn fuel st0 _ hm hinit.1).1
     obtain ⟨p1, p2, p3⟩ := post_spec asn C cvrs winner hC hE hd
     have hopt := exit_all_leOPT asn C cvrs winner hE
     have hfin := exit_all_finite asn C cvrs winner hE
@@ -461,7 +491,7 @@ theorem compute_no_err (hC : C.candidates.Nodup) (hn : 2 ≤ C.candidates.length
   · cases h
   · rename_i st0 hi
     rw [hi] at hinit
-    have hloop := mainLoop_spec asn C cvrs winner hC hn fuel st0 _ rfl hinit.1
+    have hloop := (mainLoop_spec asn C cvrs winner hC hn fuel st0 _ rfl hinit.1).1
     split at h
     · cases h
     · rename_i e' hm
@@ -476,6 +506,41 @@ theorem compute_no_err (hC : C.candidates.Nodup) (hn : 2 ≤ C.candidates.length
         rw [ha] at hb; cases hb)
       rw [hL] at h
       cases h
+
+/-- **Termination.** With at least `raireFuel` iterations allowed the model returns a list: the search
+terminates (the measure `Phi` decreases in every iteration of the main loop, a dive takes at most as many
+steps as there are candidates) and raises no exception. -/
+theorem compute_terminates (hC : C.candidates.Nodup) (hn : 2 ≤ C.candidates.length) (fuel : Nat)
+    (hfuel : raireFuel C winner ≤ fuel) : ∃ as, computeRaireAssertions asn C cvrs winner fuel = Res.ok as := by
+  cases hres : computeRaireAssertions asn C cvrs winner fuel with
+  | ok as => exact ⟨as, rfl⟩
+  | err e => exact absurd hres (compute_no_err asn C cvrs winner hC hn fuel e)
+  | fuel =>
+    exfalso
+    have hinit := init_inv asn C cvrs winner hC hn
+    unfold computeRaireAssertions at hres
+    simp only at hres
+    split at hres
+    · cases hres
+    · rename_i st0 hi
+      rw [hi] at hinit
+      obtain ⟨hloop, hlf⟩ := mainLoop_spec asn C cvrs winner hC hn fuel st0 _ rfl hinit.1
+      split at hres
+      · rename_i hm
+        have := hlf hm
+        have := hinit.2.2
+        omega
+      · cases hres
+      · cases hres
+      · rename_i st hm
+        rw [hm] at hloop
+        have hE : ExitState asn C cvrs winner st := hloop
+        have hfin := exit_all_finite asn C cvrs winner hE
+        obtain ⟨L, hL⟩ := dedupe_ok st.store st.fr [] (fun i hi' hb => by
+          obtain ⟨a, ha, _⟩ := node_assertion asn C cvrs winner hC (hE.1.ok i (hE.1.fr.inRange i hi')) (hfin i hi')
+          rw [ha] at hb; cases hb)
+        rw [hL] at hres
+        cases hres
 
 end Main
 end Shangrla.Raire
